@@ -45,6 +45,11 @@ func (self ValueObject) DisplayFlat() (string, *VmInterrupt) {
 func (self ValueObject) IsEqual(other Value) (bool, *VmInterrupt) {
 	otherObj := other.(ValueObject)
 
+	// Both objects must have the same set of keys, otherwise a subset would be equal to its superset.
+	if len(self.FieldsInternal) != len(otherObj.FieldsInternal) {
+		return false, nil
+	}
+
 	for key, value := range self.FieldsInternal {
 		otherValue, found := otherObj.FieldsInternal[key]
 		if !found {
